@@ -112,7 +112,18 @@ class Rig:
                     if actual == "Read" and h.get("refresh") and not h["coro"]:
                         el.reset_value(py_value(kind, h["refresh"] - 1))
 
-                if h["coro"]:
+                if h["coro"] and h.get("wrapped"):
+                    # a coroutine function produced by a decorator around a PLAIN function (functools.wraps sets __wrapped__):
+                    # what is subscribed is a coroutine function and must be treated as one
+                    import functools
+
+                    def inner(self_drv, event):
+                        body(self_drv, event)
+
+                    @functools.wraps(inner)
+                    async def fn(self_drv, event):
+                        inner(self_drv, event)
+                elif h["coro"]:
                     async def fn(self_drv, event):
                         body(self_drv, event)
                 else:
@@ -502,6 +513,7 @@ handler_st = st.fixed_dictionaries(
         "level": st.integers(0, 1),
         "refresh": st.sampled_from([0, 0, 0, 1, 2]),
         "ev2": st.sampled_from([None, None, None, "Write", "Change", "Read"]),
+        "wrapped": st.booleans(),
     }
 )
 op_st = st.fixed_dictionaries(
